@@ -45,7 +45,12 @@ def sh(cmd, timeout=7200):
 
 def nextid(prop):
     n = 1
-    while os.path.exists(os.path.join(ROOT, "seeded", "%s-m%d" % (prop, n))):
+    try:
+        dropped = open(os.path.join(ROOT, "seeded", "DROPPED.md")).read()
+    except OSError:
+        dropped = ""
+    # never reuse the id of a stored or a dropped regression
+    while os.path.exists(os.path.join(ROOT, "seeded", "%s-m%d" % (prop, n))) or ("**%s-m%d**" % (prop, n)) in dropped:
         n += 1
     return "%s-m%d" % (prop, n)
 
